@@ -243,15 +243,19 @@ class Worker:
         self.proc = None
         return rc, tail
 
-    def call(self, verb, *args, limit=None, timeout=None):
-        """execute one command; always returns a Rec (aborts / timeouts are synthesized)"""
+    def call(self, verb, *args, limit=None, timeout=None, skew=None):
+        """execute one command; always returns a Rec (aborts / timeouts are synthesized).
+        skew: the library gets its input buffers this many bytes off their allocation's alignment (default: cycles 0..3 with the
+        command number, so every verb is also exercised with odd-address buffers; a replay passes the recorded value)"""
         if self.proc is None:
             self.start()
         self.seq += 1
         self.commands += 1
         seq = self.seq
         lim = limit if limit is not None else (1 << 62)
-        line = "%d %d %s" % (seq, lim, verb)
+        if skew is None:
+            skew = seq % 4
+        line = "%d %d %s" % (seq, lim, verb if not skew else "%s@%d" % (verb, skew))
         for a in args:
             line += " " + enc(a)
         try:
@@ -288,6 +292,7 @@ class Worker:
                 rec["oversize"] = oversize
                 break
         rec["args"] = [str(a) if not isinstance(a, bytes) else a.hex() for a in args]
+        rec.setdefault("skew", skew)
         rec["variant"] = self.variant
         if self.log is not None:
             self.log.append(rec)
@@ -663,7 +668,7 @@ class ShardCtx:
                 clean = False
                 continue
             self.stats.monitor["mon_" + v["kind"]] += 1
-            cmds = commands or [dict(verb=rec.get("verb"), args=rec.get("args"))]
+            cmds = commands or [dict(verb=rec.get("verb"), args=rec.get("args"), skew=rec.get("skew", 0))]
             self.violation(v["kind"], v["sig"], v["detail"], files=files, commands=cmds)
             clean = False
         return clean
